@@ -168,8 +168,9 @@ class LSControl(impl.LocalControl):
 
 
 # ----------------------------------------------------------------- packet abstraction
-def abstract_packet(payload: bytes, ctx: str):
-    """ctx: 'boot' | 'auth' | 'cmd' | 'prepare'"""
+def abstract_packet(payload: bytes, ctx: str, orm: bool = False):
+    """ctx: 'boot' | 'auth' | 'cmd' | 'prepare'; orm: CLIENT_OPTIONAL_RESULTSET_METADATA was negotiated, so a column count is
+    preceded by the metadata-follows byte"""
     if not payload:
         return ("PFieldList", 0)
     b = payload[0]
@@ -213,8 +214,10 @@ def abstract_packet(payload: bytes, ctx: str):
                 i += 1
             n += 1
         return "PColDef" if (n == 1 and ctx != "fieldlist") else ("PFieldList", n)
-    if len(payload) <= 2:
-        return ("PColCount", payload[-1])
+    if orm and len(payload) == 2 and payload[0] in (0, 1) and payload[1] < 251:
+        return ("PColCount", payload[1])
+    if not orm and len(payload) == 1 and payload[0] < 251:
+        return ("PColCount", payload[0])
     return ("UNKNOWN", payload[:16].hex())
 
 
@@ -291,6 +294,8 @@ class Driver:
         self._cmd = None
         self.obs = []      # (outputs, blocked, meta)
         self.ctx = "boot"
+        self.server_caps = None
+        self.orm = False
         self.caps = cl.BASE_CAPS
         self.depeof = False
         self.stmts = {}    # id -> dict(nparams, cursor: bool)
@@ -324,7 +329,15 @@ class Driver:
         outs = []
         for e in self.env.log:
             if e[0] == "write":
-                pk = [(q, abstract_packet(p, self.ctx), p) for q, p in cl.split_raw(e[1])]
+                try:
+                    pk = [(q, abstract_packet(p, self.ctx, self.orm), p) for q, p in cl.split_raw(e[1])]
+                    for _q, a, p in pk:
+                        if a == "PHandshake" and self.server_caps is None:
+                            self.server_caps = cl.parse_handshake_v10(p)["caps"]
+                except ValueError:
+                    # one writer.write that is not a whole number of packets: reported as one unknown packet (the
+                    # comparison with the model and the grammar oracle both reject it)
+                    pk = [(e[1][3] if len(e[1]) > 3 else 0, ("UNKNOWN", "partial-packet-write"), e[1])]
                 outs.append(("OWrite", pk))
             elif e[0] == "sess":
                 outs.append(("OSess", e[1]))
@@ -354,6 +367,10 @@ class Driver:
         self.handshaken = True
         self.depeof = depeof and ok
         caps = cl.BASE_CAPS | (cl.CLIENT_DEPRECATE_EOF if depeof else 0)
+        # a conforming client may offer capabilities the server does not have; what counts is the intersection
+        if self.rng.random() < 0.5:
+            caps |= cl.CLIENT_OPTIONAL_RESULTSET_METADATA
+        self.orm = bool((self.server_caps or 0) & caps & cl.CLIENT_OPTIONAL_RESULTSET_METADATA)
         self.caps = caps
         p = cl.handshake_response(user=b"user", caps=caps, plugin=b"c0", charset=8)
         if not ok:
